@@ -65,6 +65,9 @@ def _ops():
     q("ObtainQuantity([('m',2),('s',-1)],('length','time'))", lambda db: ObtainQuantity([("m", 2), ("s", -1)], ("length", "time")), LT2)
     q("ObtainQuantity([('m',2)],('length',))", lambda db: ObtainQuantity([("m", 2)], ("length",)), D(("length", "m", 2)))
     q("ObtainQuantity([('m',1),('s',-1)],('length','time'))", lambda db: ObtainQuantity([("m", 1), ("s", -1)], ("length", "time")), D(("length", "m", 1), ("time", "s", -1)))
+    # (neighbouring exponents: in CPython hash(-1) == hash(-2), so -1 / -2 is where a hash-based comparison collides)
+    q("ObtainQuantity([('m',1),('s',-2)],('length','time'))", lambda db: ObtainQuantity([("m", 1), ("s", -2)], ("length", "time")), D(("length", "m", 1), ("time", "s", -2)))
+    q("1.0/(Scalar(s)*Scalar(s))", lambda db: (1.0 / (_scal(4.0, "s") * _scal(2.0, "s"))).GetQuantity(), D(("time", "s", -2)))
     q("ObtainQuantity(OrderedDict(length:[m,2]))", lambda db: ObtainQuantity(OrderedDict([("length", ["m", 2])])), D(("length", "m", 2)))
     q("ObtainQuantity(OrderedDict(list values),caption='cap')", lambda db: ObtainQuantity(OrderedDict([("length", ["m", 2]), ("time", ["s", -1])]), unknown_unit_caption="cap"), D(("length", "m", 2), ("time", "s", -1), cap="cap"))
     q("ObtainQuantity(OrderedDict(list values))", lambda db: ObtainQuantity(OrderedDict([("length", ["m", 2]), ("time", ["s", -1])])), LT2)
